@@ -186,6 +186,14 @@ impl Property for C15 {
             meta,
         }
     }
+    fn probes(&self, case: &Case, _rec: &RunRecord) -> BTreeMap<String, u64> {
+        let mut m = BTreeMap::new();
+        m.insert(format!("family_{}", case.scenario.family), 1);
+        if case.scenario.rules.iter().any(|(_, r)| r.stmts.iter().any(|s| matches!(s, crate::dsl::Stmt::Out { mode: crate::dsl::OutMode::LinkDir(_), .. }))) {
+            m.insert("target_is_symlink_to_directory".into(), 1);
+        }
+        m
+    }
     fn check(&self, case: &Case, rec: &RunRecord, _obs: &dyn Observer) -> Vec<Violation> {
         let mut v = c09::liveness_violations(rec);
         let canon: Vec<Vec<String>> = serde_json::from_value(case.meta["canon"].clone()).unwrap_or_default();
